@@ -22,9 +22,10 @@ CONSTANTS Size,      \* window size
           Reanchor,  \* TRUE: Add moves currentSlot back for an on-time row that precedes it
           Emit       \* TRUE: print every complete behaviour as a JSON scenario
 
-VARIABLES data, cur, maxTs, wmCur, wmSent, wmChan, open, tpc, twm, pend, out, emitted, hist
+VARIABLES data, cur, maxTs, wmCur, wmSent, wmChan, open, tpc, twm, pend, out, emitted, hist,
+          lq       \* Add is inside handleLateData: the late re-delivery computed and not yet sent (tw.mu is released while it is sent)
 
-vars == <<data, cur, maxTs, wmCur, wmSent, wmChan, open, tpc, twm, pend, out, emitted, hist>>
+vars == <<data, cur, maxTs, wmCur, wmSent, wmChan, open, tpc, twm, pend, out, emitted, hist, lq>>
 
 NoWm == -1000          \* "zero time": below every reachable watermark
 Align(t) == (t \div Size) * Size
@@ -37,7 +38,7 @@ Init ==
   /\ data = <<>> /\ cur = -1 /\ maxTs = -1 /\ wmCur = NoWm /\ wmSent = NoWm /\ wmChan = <<>>
   /\ open = <<>>           \* sequence of [ws, snap] (triggeredWindows, with snapshot row seq)
   /\ tpc = "idle" /\ twm = NoWm /\ pend = <<>>
-  /\ out = <<>> /\ emitted = <<>> /\ hist = <<>>
+  /\ out = <<>> /\ emitted = <<>> /\ hist = <<>> /\ lq = <<>>
 
 (* ---------------- Watermark.UpdateEventTime + sendWatermarkLocked -------- *)
 NewMax(ts) == IF maxTs = -1 \/ ts > maxTs THEN ts ELSE maxTs
@@ -49,6 +50,7 @@ OpenIdx(ts) == {i \in 1..Len(open) : InWin(ts, open[i].ws)}
 Add(ts) ==
   /\ Len(emitted) < MaxEv
   /\ tpc \in {"idle", "fired"}             \* tw.mu is free in both
+  /\ lq = <<>>                             \* one producer (the stream's processor goroutine): the previous Add has returned
   /\ LET id    == Len(emitted) + 1
          row   == [id |-> id, ts |-> ts]
          wm1   == NewWm(ts)
@@ -65,7 +67,7 @@ Add(ts) ==
      /\ emitted' = Append(emitted, [id |-> id, ts |-> ts, late |-> late])
      /\ hist' = Append(hist, [a |-> "add", id |-> id, ts |-> ts])
      /\ IF ~late \/ inCur
-          THEN /\ data' = d1 /\ open' = open /\ out' = out
+          THEN /\ data' = d1 /\ open' = open /\ out' = out /\ lq' = <<>>
                /\ cur' = IF Reanchor /\ ~late /\ ts < cur0 /\ InWin(ts, Align(ts)) THEN Align(ts) ELSE cur0
           ELSE IF AL > 0 /\ oi # {}
                  THEN \* handleLateData: snapshot + rows of that slot still in data, evicted
@@ -75,10 +77,18 @@ Add(ts) ==
                           rows == open[i].snap \o mine
                       IN /\ data' = SelectSeq(d1, LAMBDA r : ~InWin(r.ts, ws))
                          /\ open' = [open EXCEPT ![i].snap = rows]
-                         /\ out' = Append(out, [ws |-> ws, ids |-> Ids(rows), kind |-> "late", maxAt |-> NewMax(ts)])
+                         \* the re-delivery is sent with tw.mu released (LateSend); the trigger goroutine may run before it
+                         /\ out' = out /\ lq' = <<[ws |-> ws, ids |-> Ids(rows), kind |-> "late", maxAt |-> NewMax(ts)]>>
                          /\ cur' = cur0
-                 ELSE /\ data' = data /\ open' = open /\ out' = out /\ cur' = cur0   \* dropLastRow
+                 ELSE /\ data' = data /\ open' = open /\ out' = out /\ cur' = cur0 /\ lq' = <<>>   \* dropLastRow
   /\ UNCHANGED <<tpc, twm, pend>>
+
+\* handleLateData, second half: callback + send with tw.mu released, then the lock is taken again and Add returns
+LateSend ==
+  /\ lq # <<>>
+  /\ out' = Append(out, Head(lq)) /\ lq' = Tail(lq)
+  /\ hist' = Append(hist, [a |-> "latesend"])
+  /\ UNCHANGED <<data, cur, maxTs, wmCur, wmSent, wmChan, open, tpc, twm, pend, emitted>>
 
 (* ---------------- checkAndTriggerWindows ---------------------------------- *)
 \* run the loop from slot c with buffer d until a window with data fires or wm < end
@@ -115,14 +125,14 @@ Trig ==
   /\ tpc = "idle" /\ wmChan # <<>> /\ cur # -1
   /\ wmChan' = Tail(wmChan)
   /\ Run(Head(wmChan), "trig")
-  /\ UNCHANGED <<maxTs, wmCur, wmSent, out, emitted>>
+  /\ UNCHANGED <<maxTs, wmCur, wmSent, out, emitted, lq>>
 
 \* callback + sendResult outside the lock, then re-lock and continue the loop
 Send ==
   /\ tpc = "fired"
   /\ out' = Append(out, [ws |-> pend.ws, ids |-> Ids(pend.rows), kind |-> "first", maxAt |-> maxTs])
   /\ Run(twm, "send")
-  /\ UNCHANGED <<maxTs, wmCur, wmSent, wmChan, emitted>>
+  /\ UNCHANGED <<maxTs, wmCur, wmSent, wmChan, emitted, lq>>
 
 \* Watermark.update (ticker, every WatermarkInterval): re-send a watermark that did not fit into the full channel.
 \* It takes only the watermark's own lock, so it may interleave anywhere.
@@ -130,12 +140,12 @@ Tick ==
   /\ wmCur > wmSent /\ Len(wmChan) < ChanCap
   /\ wmChan' = Append(wmChan, wmCur) /\ wmSent' = wmCur
   /\ hist' = Append(hist, [a |-> "tick"])
-  /\ UNCHANGED <<data, cur, maxTs, wmCur, open, tpc, twm, pend, out, emitted>>
+  /\ UNCHANGED <<data, cur, maxTs, wmCur, open, tpc, twm, pend, out, emitted, lq>>
 
-Quiet == tpc = "idle" /\ wmChan = <<>> /\ wmSent = wmCur
+Quiet == tpc = "idle" /\ wmChan = <<>> /\ wmSent = wmCur /\ lq = <<>>
 Complete == Len(emitted) = MaxEv /\ Quiet
 
-Next == (\E ts \in 0..MaxTs : Add(ts)) \/ Trig \/ Send \/ Tick
+Next == (\E ts \in 0..MaxTs : Add(ts)) \/ LateSend \/ Trig \/ Send \/ Tick
 
 Spec == Init /\ [][Next]_vars
 
@@ -199,5 +209,5 @@ ImplOK == /\ (cur # -1 => cur % Size = 0)
 (* ---------------- scenario output ----------------------------------------- *)
 EmitScenario == (Emit /\ Complete) => PrintT(<<"SCEN", ToJson(hist)>>)
 
-View == <<data, cur, maxTs, wmCur, wmSent, wmChan, open, tpc, twm, pend, out, emitted>>
+View == <<data, cur, maxTs, wmCur, wmSent, wmChan, open, tpc, twm, pend, out, emitted, lq>>
 =============================================================================
